@@ -177,6 +177,32 @@ def ob_classify(nres):
     return h
 
 
+def ob_classify_parsed():
+    """the classification of a test with a PARSED protocol (tap, rust) once its stream has been folded into a verdict (RUNNING = every subtest passed, FAIL, SKIP,
+    ERROR, or TIMEOUT / INTERRUPT decided by the harness): the real TestRunTAP.complete / TestRun.complete / _complete with a symbolic exit status and should_fail.
+    All passed -> OK, inverted to UNEXPECTEDPASS by should_fail; FAIL inverted to EXPECTEDFAIL; for tap a non-zero exit status makes a not-bad result ERROR;
+    everything else unchanged - and the totals / exit status follow"""
+    def h():
+        hh = mk_harness(1, 1, 0)
+        tap = choose(2, 'protocol (rust | tap)') == 1
+        r = object.__new__(M.TestRunTAP if tap else M.TestRunRust)
+        pre = ['RUNNING', 'FAIL', 'SKIP', 'ERROR', 'TIMEOUT', 'INTERRUPT'][choose(6, 'verdict of the stream')]
+        r.res = getattr(M.TestResult, pre)
+        r.returncode = sym_int('rc'); xf = sym_bool('should_fail'); r.expected_fail = xf
+        r.stdo = ''; r.stde = ''; r.starttime = 0.0; r.interactive = False; r.verbose = False; r.is_parallel = True
+        r.complete()
+        base = pre
+        if tap and decide(r.returncode != 0) and pre in ('RUNNING', 'SKIP'): base = 'ERROR'
+        if base == 'RUNNING': base = 'OK'
+        if decide(bt_any(xf)) and base in ('OK', 'FAIL'): base = 'UNEXPECTEDPASS' if base == 'OK' else 'EXPECTEDFAIL'
+        check(r.res.name == base, 'a test with a parsed protocol is classified by the documented rule')
+        hh.process_test_result(r)
+        check((hh.total_failure_count() > 0) == (base in BAD), 'exit status non-zero iff the test failed, errored, timed out or unexpectedly passed')
+        check(hh.unexpectedpass_count == (1 if base == 'UNEXPECTEDPASS' else 0) and hh.expectedfail_count == (1 if base == 'EXPECTEDFAIL' else 0) and hh.success_count == (1 if base == 'OK' else 0), 'totals equal the tally')
+        cover(base)
+    return h
+
+
 def ob_doit():
     """TestHarness.doit: the job count handed to the scheduler never exceeds the requested one (and every selected test gets one runner per repetition)"""
     def h():
@@ -474,6 +500,7 @@ def obligations(tier):
                           labels=('timeout', 'classified', 'runs on')))
     for n in (1, 3, 4) if q else (1, 2, 3, 4, 5, 6):
         out.append(Obligation('slice[%d tests]' % n, ob_slice(n), dict(tests=n, slice_arg='d/d with symbolic digits'), labels=('partition', 'rejected')))
+    out.append(Obligation('classify-parsed', ob_classify_parsed(), dict(real='TestRunTAP.complete / TestRunRust / TestRun.complete / _complete, TestHarness.process_test_result', verdict='RUNNING (all passed) | FAIL | SKIP | ERROR | TIMEOUT | INTERRUPT', exit_status='any integer', should_fail='symbolic'), labels=('OK', 'UNEXPECTEDPASS', 'EXPECTEDFAIL', 'ERROR')))
     from harness.c03 import ob_test_argv_setup
     out.append(Obligation('setup-options', ob_test_argv_setup(), dict(real='TestHarness.get_test_runner / merge_setup_options / SingleTestRunner.__init__ for two tests in a row under --setup', setup='timeout_multiplier 0..3, exe_wrapper or none',
                           command_line='-t absent | 0..3'), labels=('started',), max_paths=1000000))
